@@ -20,7 +20,7 @@ from calls import BadType, key_of, limit_jvm, retry, run_call, validate_calls, w
 
 PROP = "C18"
 MAXLEN = 300
-DRIFT_OPS = {"setitem"}          # not named in the property text: reported as drift, never a violation
+DRIFT_OPS = {"setitem", "repr"}  # not named in the property text (conversion to int, str and bytes is): drift, never a violation
 
 _IMPL = None
 
@@ -97,7 +97,7 @@ def _setitem(c):
 def _half(fn, arg):
     _, bu = impl()
     r = getattr(bu, fn)(arg)
-    if not isinstance(r, tuple) or len(r) != 2:
+    if not isinstance(r, (tuple, list)) or len(r) != 2:
         raise BadType(type(r).__name__)
     return [proj(r[0]), proj(r[1])]
 
